@@ -43,10 +43,10 @@ pub fn fuzz_one(target: &str, data: &[u8]) -> Vec<Violation> {
             cfg.p_fail = 150;
             let (prog, _) = super::gen::gen_program(&data[1.min(data.len())..], cfg);
             let rr = super::progcheck::reference(&prog, 200_000);
-            if rr.unspecified.as_deref().map(|u| u.contains("budget") || u.contains("operator *")).unwrap_or(false) {
+            let src = super::ast::render(&prog);
+            if super::progcheck::memory_risk(&rr, &src) {
                 return vec![];
             }
-            let src = super::ast::render(&prog);
             match run_text(&src) {
                 // a request for more memory than can exist (excluded by C08's statement)
                 Outcome::Panic(p) if p.msg.contains("capacity overflow") => vec![],
@@ -136,6 +136,8 @@ pub fn fuzz_one(target: &str, data: &[u8]) -> Vec<Violation> {
 
 /// widths / indices with more than 6 digits ask for memory (excluded by C08's statement) or are C08's business
 fn has_huge_number(t: &str) -> bool {
+    // digits of one specifier are accumulated by the implementation even across stray characters
+    // (`{0:*>90101{7101}` pads to 901017101 columns): count all digits between an opening brace and its close
     let mut run = 0;
     for c in t.chars() {
         if c.is_ascii_digit() {
@@ -143,7 +145,7 @@ fn has_huge_number(t: &str) -> bool {
             if run > 6 {
                 return true;
             }
-        } else {
+        } else if c == '}' {
             run = 0;
         }
     }
